@@ -10,8 +10,9 @@ for sid in sorted(os.listdir(os.path.join(V, 'seeded'))):
     res = json.load(open(os.path.join(d, 'result.json'))) if os.path.exists(os.path.join(d, 'result.json')) else None
     conf = json.load(open(os.path.join(d, 'confirm.json'))) if os.path.exists(os.path.join(d, 'confirm.json')) else {}
     if res is None:
-        rows.append((sid, meta['property'], meta['what'][:110], 'not evaluated', '')); continue
+        rows.append((sid, meta['property'], (meta.get('what') or meta.get('summary',''))[:110], 'yes' if conf.get('confirmed') else '-', 'not evaluated', '')); continue
     r = res['results'].get(meta['property'], {})
+    okc = 'yes' if conf.get('confirmed') else ('no' if conf else '-')
     obl = []
     for l in r.get('lines', []):
         m = re.search(r'obligation=(\S+)', l)
@@ -19,8 +20,8 @@ for sid in sorted(os.listdir(os.path.join(V, 'seeded'))):
             h = re.search(r'harness=(\S+)', l)
             obl.append(m.group(1) + (' (' + h.group(1) + ')' if h else ' (verus)') + (' [replayed]' if 'no-failing-input-found' not in l else ' [no-failing-input-found]'))
     verdict = {1: 'caught', 0: 'MISSED', 2: 'undecided'}.get(r.get('exit'), '?')
-    rows.append((sid, meta['property'], meta['what'][:150], verdict + ' (' + res.get('tier', '') + ')', '; '.join(obl[:3]) or '; '.join(x[:120] for x in r.get('lines', [])[:1])))
-print('| seeded change | prop | what it does | outcome | failing obligation(s) |')
-print('|---|---|---|---|---|')
+    rows.append((sid, meta['property'], (meta.get('what') or meta.get('summary',''))[:150], okc, verdict + ' (' + res.get('tier', '') + ')', '; '.join(obl[:3]) or '; '.join(x[:120] for x in r.get('lines', [])[:1])))
+print('| seeded change | prop | what it does | confirmed | outcome | failing obligation(s) |')
+print('|---|---|---|---|---|---|')
 for r in rows:
-    print('| %s | %s | %s | %s | %s |' % r)
+    print('| %s | %s | %s | %s | %s | %s |' % r)
